@@ -330,8 +330,19 @@ def node_job(interp, c, case):
             want = t
         elif cls == "VolumeTerm":
             want = V if mode == "volume" else 1
-        c.prove(got == want, "%s with %d opaque children [%s] is its operator applied to the children's values" % (cls, arity, mode),
-                info={"sig": "term node %s" % cls, "what": "%s/%d/%s" % (cls, arity, mode)})
+        ok = c.prove(got == want, "%s with %d opaque children [%s] is its operator applied to the children's values" % (cls, arity, mode),
+                     info={"sig": "term node %s" % cls, "what": "%s/%d/%s" % (cls, arity, mode)})
+        if ok is False:
+            # replay: a written formula whose top node is this class, over children that differ between the plain and the
+            # volume-aware evaluation, at fixed values
+            kid = ["A*volume", "x2 + volume*2", "C - volume", "S*volume*volume"][:max(arity, 1)]
+            text = {"SumTerm": " + ".join(kid), "ProductTerm": " * ".join("(%s)" % k_ for k_ in kid), "MaxTerm": "max(%s)" % ", ".join(kid),
+                    "MinTerm": "min(%s)" % ", ".join(kid), "PowerTerm": "(%s)^(%s)" % (kid[0], (kid + ["2"])[1]), "ExpTerm": "exp(%s)" % kid[0],
+                    "LogTerm": "log(%s)" % kid[0], "AbsTerm": "abs(%s)" % kid[0], "StepTerm": "Heaviside(%s)" % kid[0],
+                    "ConstantTerm": "2.5", "SpeciesTerm": "A", "ParameterTerm": "k", "TimeTerm": "t", "VolumeTerm": "volume"}[cls]
+            vals = {"s_A": 1.5, "s_B_1": 2.0, "s_x2": 0.75, "s_C": 3.0, "s_S": 1.25, "s_I": 0.5, "t": 0.5, "V": 2.5}
+            vals.update({"p_" + p_: 1.0 + 0.25 * i_ for i_, p_ in enumerate(PARAMS)})
+            c.failures[-1]["replay"] = {"text": text, "mode": mode, "values": vals}
 
 
 def users_job(interp, c, case):
